@@ -87,13 +87,6 @@ Proof.
   all: destruct (cwf s); simpl in *; intuition congruence.
 Qed.
 
-Lemma existsb_upd_in : forall A (f : A -> bool) l i q,
-  (i < length l)%nat -> f q = true -> existsb f (upd i q l) = true.
-Proof.
-  intros A f l i q Hi Hq. destruct (nth_error l i) eqn:E.
-  - eapply existsb_upd_new; eauto.
-  - apply nth_error_None in E. lia.
-Qed.
 
 Lemma length_ws_add_task : forall s, length (ws (add_task s)) = length (ws s).
 Proof.
